@@ -144,6 +144,22 @@ class C03(XsProp):
         # D5: the d2 plugin object is shared by clones (recorded finding)
         cs.append('xs d2load | eval %s | clone | use 1 | eval %s | use 0 | eval %s | stack' % (
             hexsrc('1 1 d2-resize'), hexsrc('3 4 d2-resize'), hexsrc('d2-width')))
+        # process-wide state (family added after round 11): a probe battery on a snapshot gives the same results before and after heavy
+        # activity on the original - many failing conversions / decodings / prints, which is where a counter or cache outside the
+        # interpreter state would leak; the marker `limits 4011` selects the predicate
+        probes = ['[ 1 2 ] >bitstr', '[ 1 [ 2 "x" ] |ff| ] >bitstr', '"abc" base64 dup base64>', '|01 02 03 04 05| zero85', '[ 3 1 2 ] sort', '"12" str>number',
+                  '{ 1 "a" } "a" get', '255 ^hex "x" swap concat' if False else '1 2 +', '|41 42| bitstr>utf8', '5 3 uint! open-bitstr 3 uint']
+        noisy = ['[ 256 ] >bitstr', '[ 1 [ 2 300 ] ] >bitstr', '[ nil ] >bitstr', '[ 1 [ 2 [ 3 "x" -1 ] ] ] base64', '"``" base64>', '"#" zero85>', '1 0 /',
+                 '|ff| bitstr>utf8', '"zz" str>number', '[ 1 ] 5 nth', 'nosuchword', '1 "a" +', '[ [ [ [ 256 ] ] ] ] >bitstr', '9 seek']
+        for _ in range(40 if tier == 'quick' else 1500):
+            pb = ' '.join(rng.sample(probes, rng.randint(2, 4)))
+            k = rng.choice([25, 30, 40, 60])
+            acts = [rng.choice(noisy) for _ in range(rng.randint(1, 3))]
+            steps = ['xs limits 4011 - -', 'clone', 'use 1', 'eval %s' % hexsrc(pb), 'stack', 'eval %s' % hexsrc('depth 0 do drop loop') , 'use 0']
+            for j in range(k):
+                steps.append('eval %s' % hexsrc(acts[j % len(acts)]))
+            steps += ['use 1', 'eval %s' % hexsrc(pb), 'stack', 'eval %s' % hexsrc('depth 0 do drop loop'), 'clone', 'use 2', 'eval %s' % hexsrc(pb), 'stack']
+            cs.append(' | '.join(steps))
         return cs
 
     D5 = ('the d2 canvas plugin keeps its state in a reference-counted host object that State::clone shares: after clone, `3 4 d2-resize` on '
@@ -230,6 +246,16 @@ class C03(XsProp):
             st = c.split(' | ')
             ou = o.split(' | ')
             if len(st) != len(ou):
+                continue
+            if c.startswith('xs limits 4011 '):
+                n += 1
+                first = (ou[3], ou[4])
+                last = (ou[-7], ou[-6])
+                fresh = (ou[-2], ou[-1])
+                if first != last or first != fresh:
+                    fails.append(('case: %s\nsources: %s\nresult: %s' % (c, src_of(c)[:6], o[:200] + ' ... ' + o[-300:]),
+                                  'a snapshot answers the same probes differently after the original was active (before: %s, after: %s, fresh clone: %s)'
+                                  % (first, last, fresh)))
                 continue
             if c.startswith('xs limits 4003 '):
                 n += 1
